@@ -1843,7 +1843,73 @@ def c24(idx: Index, rep: Report, tier: str) -> None:
     rep.require_min(rule, "bookkeeping_arguments", 6)
 
 
-EXTRA3 = {"C24": c24, "C14": c14, "C16": c16, "C15": c15, "C09": c09, "C13": c13, "C07": c07, "C12": c12, "C11": c11, "C10": c10, "C06": c06, "C04": c04, "C05": c05, "C01": c01, "C02": c02, "C03": c03, "C08": c08, "C35": c35, "C38": c38, "C36": c36, "C32": c32, "C33": c33, "C31": c31, "C17": c17, "C25": c25, "C20": c20, "C27": c27, "C28": c28}
+# ------------------------------------------------------------------------------------ C22 / C23 (round 5)
+def c22(idx: Index, rep: Report, tier: str) -> None:
+    # (a) a field of the copy is taken from the same field of the original
+    rule = "C22.6 T21 clone-copies-field-to-same-field"
+    n = 0
+    for f in idx.all_funcs():
+        if not f.module.name.startswith("unified_planning.model") or f.name not in ("clone", "_clone_to"):
+            continue
+        for a in walk_no_nested(f.node):
+            if not (isinstance(a, ast.Assign) and len(a.targets) == 1 and isinstance(a.targets[0], ast.Attribute) and isinstance(a.targets[0].value, ast.Name) and a.targets[0].value.id != "self"):
+                continue
+            v = a.value
+            while (isinstance(v, ast.Call) and call_name(v) in ("copy", "list", "dict", "set", "tuple") and (v.args or isinstance(v.func, ast.Attribute))) or (isinstance(v, ast.Subscript) and isinstance(v.slice, ast.Slice)):
+                v = (v.func.value if isinstance(v.func, ast.Attribute) and not v.args else v.args[0]) if isinstance(v, ast.Call) else v.value
+            if not (isinstance(v, ast.Attribute) and norm(v.value) == "self"):
+                continue
+            n += 1
+            tf, sf = a.targets[0].attr, v.attr
+            ok = tf.lstrip("_") == sf.lstrip("_")
+            rep.check(ok, rule, f"{f.short}: `{tf}` of the copy comes from `{tf}` of the original", f.loc(a), construct=norm(a)[:80], detail="" if ok else f"the copy's `{tf}` is filled from the original's `{sf}`: the two problems differ in a field that equality does not compare directly (it shows up in the kind once a temporal feature is added)", function=f.qualname)
+    rep.count("plain_field_copies", n)
+    rep.require_min(rule, "plain_field_copies", 40)
+    # (b) the parts of the copy are bound to the copy
+    rule_b = "C22.7 parts-of-the-copy-are-bound-to-the-copy"
+    k = 0
+    for f in idx.all_funcs():
+        if not f.module.name.startswith("unified_planning.model") or f.name != "clone":
+            continue
+        for c in walk_no_nested(f.node):
+            if isinstance(c, ast.Call) and call_name(c) == "clone" and isinstance(c.func, ast.Attribute) and norm(c.func.value) != "self":
+                k += 1
+                bad = [x for x in list(c.args) + [kw.value for kw in c.keywords] if isinstance(x, ast.Name) and x.id == "self"]
+                rep.check(not bad, rule_b, f"{f.short}: a cloned part is not handed the original as its owner", f.loc(c), construct=norm(c)[:70], detail="" if not bad else "the part of the copy keeps callbacks / back-references to the original problem: a later edit made through the copy's part registers types and checks names in the original", function=f.qualname)
+    rep.count("part_clones", k)
+    rep.require_min(rule_b, "part_clones", 10)
+
+
+def c23(idx: Index, rep: Report, tier: str) -> None:
+    """The parameters of an action instance are checked by ActionInstance.__init__ only; nothing outside the class
+    may write its private fields (building an instance by copy + field assignment skips the check)."""
+    rule = "C23.5 T11 action-instance-fields-written-by-the-class-only"
+    ai = idx.cls("plans.plan.ActionInstance")
+    fields = {t.attr for m in ai.methods.values() for a in walk_no_nested(m.node) if isinstance(a, (ast.Assign, ast.AnnAssign)) for t in (a.targets if isinstance(a, ast.Assign) else [a.target]) if isinstance(t, ast.Attribute) and norm(t.value) == "self" and t.attr.startswith("_")}
+    if not {"_params", "_action"} <= fields:
+        raise AnalysisError(f"{rule}: ActionInstance no longer stores _action / _params")
+    n = 0
+    bad_all = []
+    for f in idx.all_funcs():
+        if f.cls is ai:
+            continue
+        for a in walk_no_nested(f.node):
+            tgs = a.targets if isinstance(a, ast.Assign) else ([a.target] if isinstance(a, (ast.AugAssign, ast.AnnAssign)) else [])
+            for t in tgs:
+                if isinstance(t, ast.Attribute) and t.attr in ("_params", "_action") and norm(t.value) != "self":
+                    bad_all.append((f, a))
+            if isinstance(a, ast.Call) and call_name(a) == "setattr" and len(a.args) >= 2 and isinstance(a.args[1], ast.Constant) and a.args[1].value in ("_params", "_action"):
+                bad_all.append((f, a))
+        n += 1
+    for f, a in bad_all:
+        rep.bad(rule, f"{f.short}: the fields of an ActionInstance are not written from outside the class", f.loc(a), construct=norm(a)[:80], detail="an action instance is assembled by assigning its private fields: the type / constant-ness check of ActionInstance.__init__ never runs, so a plan can hold a parameter that is not compatible with the action's parameter", function=f.qualname)
+    rep.ok(rule, f"{n} functions outside ActionInstance: none assigns ._params / ._action of another object", "unified_planning/plans/plan.py:1", construct=f"{n} functions")
+    fx = ast.parse("def g(ai, a, p):\n    new = copy(ai)\n    new._action = a\n    new._params = p\n    return new").body[0]
+    if not any(isinstance(t, ast.Attribute) and t.attr in ("_params", "_action") and norm(t.value) != "self" for a in ast.walk(fx) if isinstance(a, ast.Assign) for t in a.targets):
+        raise AnalysisError(f"{rule}: positive fixture no longer matches")
+
+
+EXTRA3 = {"C22": c22, "C23": c23, "C24": c24, "C14": c14, "C16": c16, "C15": c15, "C09": c09, "C13": c13, "C07": c07, "C12": c12, "C11": c11, "C10": c10, "C06": c06, "C04": c04, "C05": c05, "C01": c01, "C02": c02, "C03": c03, "C08": c08, "C35": c35, "C38": c38, "C36": c36, "C32": c32, "C33": c33, "C31": c31, "C17": c17, "C25": c25, "C20": c20, "C27": c27, "C28": c28}
 
 
 def run_extra3(prop: str, idx: Index, rep: Report, tier: str) -> None:
